@@ -159,7 +159,7 @@ register("C05 Regenerated on every run (Gen/RewriterTable_gen.v): what _extract_
          "SQL whose FROM names no model passes through (C05_passthrough_*); explicit JOINs, function calls, literals and unknown fields are rejected (C05_reject_*). "
          "Model/Rewriter.v is hand-written and tied to query_rewriter.py by evaluating it on generated SELECT trees next to the real QueryRewriter on the printed SQL text (extracted metrics / dimensions / aliases / filters / order / limit / offset, or rejection / passthrough). "
          "The property's own observation is executed: layer.sql(text) rows and column names vs the structured query for seven renderings incl. CTE / sub-select wrapping; passthrough text vs the database. "
-         "Partial: sqlglot's text -> tree step, yardstick syntax, multi-statement input and the CTE / sub-select rewriting are outside the model (exercised end to end). Known finding K1 (unqualified, unselected WHERE column).",
+         "Partial: sqlglot's text -> tree step, yardstick syntax, multi-statement input and the CTE / sub-select rewriting are outside the model (exercised end to end).",
          "Trusted: Coq kernel; Model/Rewriter.v hand-written (tied by differential testing); sqlglot parser/printer; the harness's SQL printer for the renderings; DuckDB. No axioms.",
          "Coq proof (induction over projection and filter lists) over a hand-written model of the extraction + model/implementation correspondence; SQL-vs-structured execution oracle", "DESIGN.md section 6/C05")
 
